@@ -483,6 +483,49 @@ def adjoint_sources(ctx):
               'exist before back-propagation', ctx.where(sm, g))
 
 
+def derived_owner(ctx, rule):
+    """The data weights and the residual are results of Simulation.misfit for
+    the noise model and data of that moment; the cached misfit, the residual
+    and the weights the gradient multiplies are then ONE consistent set.
+    Nothing else may (re)write them: a setter of the survey that refreshes
+    the stored weights makes the gradient use other weights than the
+    reported misfit."""
+    import ast
+    allowed = {'Simulation.misfit', 'Simulation.jtvec'}
+    n = 0
+    for rel in ('emg3d/surveys.py', 'emg3d/simulations.py'):
+        m = ctx.repo.mod(rel)
+        for st in ast.walk(m.tree):
+            tgs = st.targets if isinstance(st, ast.Assign) else (
+                [st.target] if isinstance(st, ast.AugAssign) else [])
+            for t in tgs:
+                key = None
+                if isinstance(t, ast.Subscript) and isinstance(
+                        t.slice, ast.Constant) and t.slice.value in (
+                            'weights', 'residual') and isinstance(
+                                t.value, ast.Attribute) and t.value.attr in (
+                                    'data', '_data'):
+                    key = t.slice.value
+                elif isinstance(t, ast.Subscript) and isinstance(
+                        t.value, ast.Attribute) and t.value.attr in (
+                            'weights', 'residual') and isinstance(
+                                t.value.value, ast.Attribute) and \
+                        t.value.value.attr in ('data', '_data'):
+                    key = t.value.attr
+                if key is None:
+                    continue
+                n += 1
+                q = au.qualname(st)
+                ctx.check(rule, f'{q} `{au.stext(st)}`', q in allowed,
+                          f'`{key}` of the data set is written in {q}: it '
+                          'belongs to the misfit evaluation of a simulation '
+                          '(together with the cached misfit); re-writing it '
+                          'elsewhere makes the gradient use weights / a '
+                          'residual that do not belong to the reported '
+                          'misfit', ctx.where(m, st))
+    ctx.need(n >= 2, f'only {n} stores of weights / residual found')
+
+
 def run(ctx):
     ctx.explanation = (
         'Structural necessary conditions of gradient correctness: the '
@@ -506,3 +549,13 @@ def run(ctx):
     from .c13 import misfit_formula
     from ..core.report import Renamed
     misfit_formula(Renamed(ctx, lambda r: 'C07.AS.misfit'))
+    # a cached gradient / misfit must not survive clean(): after a model
+    # update + clean('computed') the gradient returned has to be the one of
+    # the new model (rule of C12, shared)
+    from ..core.report import Renamed
+    from . import c12 as _c12
+    _m = ctx.repo.mod(_c12.SIMS)
+    _c12.rule_OW3(Renamed(ctx, lambda r: 'C07.AS.clean' if r.startswith(
+        'C12.OW3.clean') else 'C07.AS.clean'.rsplit('.', 1)[0] + '.clean_files'),
+        _m, _c12.Effects(ctx, _m))
+    derived_owner(ctx, 'C07.AS.owner')
